@@ -44,7 +44,11 @@ the same flavour by the builder who wrote it); {stats['tie']} not (yet) caught w
 p = os.path.join(ROOT, "DESIGN.md")
 s = open(p).read()
 marker = "### 10.4 Seeded code changes"
+tail = ""
 if marker in s:
+    rest = s[s.index(marker):]
+    nxt = rest.find("\n### 10.5")
+    tail = rest[nxt:] if nxt >= 0 else ""
     s = s[:s.index(marker)]
-open(p, "w").write(s.rstrip("\n") + "\n\n" + text)
+open(p, "w").write(s.rstrip("\n") + "\n\n" + text + tail)
 print(len(rows), stats)
